@@ -155,6 +155,10 @@ func replay() {
 		case "ENTRY":
 			emitEntry(id, unhx(f[2]))
 		case "CODEC":
+			if len(f) == 6 && f[2] == "typeddec" {
+				replayTypedDec(id, f[3], unhx(f[4]), unhx(f[5]))
+				continue
+			}
 			if len(f) == 6 && f[2] == "typed" {
 				replayTyped(id, f[3], unhx(f[4]), unhx(f[5]))
 				continue
